@@ -212,7 +212,7 @@ template <int S> static void part_d(Ctx &c, long &id) {
     RunCost<D> rc = RunCost<D>::mode(0); if (tiny) rc.ap = 1e-310; TimeCost tcz; tcz.mode = 0;
     typename Setup<S>::WS w0; const double c0 = s.opt->evaluate(x, g0, tcz, rc, &w0, SerialExecutor());
     Pool pool(2); PoolExec pe{&pool}; bool sub = false; for (int i = 0; i < g0.size(); ++i) sub = sub || (g0(i) != 0.0 && std::fabs(g0(i)) < 2.3e-308);
-    if (tiny && !sub) { c.st.violate(unit, "harness: the subnormal-scale configuration produced no subnormal gradient entry"); continue; }
+    if (tiny && !sub) { c.st.violate(unit, fmt("%s N=%d: a running cost of subnormal scale (weight 1e-310) leaves no subnormal entry in the gradient of the SERIAL evaluation: gradual underflow is not in effect on the calling thread after evaluate() (flush-to-zero switched on?)", order_name(S), N), {{"what", "pool-executor"}}); continue; }
     for (int r = 0; r < reps; ++r) { typename Setup<S>::WS w; Eigen::VectorXd g; double cp = s.opt->evaluate(x, g, tcz, rc, &w, pe); ++c.st.comparisons;
       if (!bits_equal(cp, c0) || g.size() != g0.size() || !bits_equal(g.data(), g0.data(), g0.size())) { c.st.violate(unit, fmt("pre-existing worker pool, %s cost scale: %s N=%d: cost/gradient differ from serial execution (cost %.17g vs %.17g)", tiny ? "subnormal" : "ordinary", order_name(S), N, cp, c0), {{"what", "pool-executor"}}); break; } }
     ++c.st.evaluations; ++c.st.nontrivial; c.st.seen(unit + order_name(S)); c.st.cls("(d) pre-existing worker pool executor", reps); }
